@@ -11,7 +11,7 @@ ravel_pytree/unravel, arithmetic or blackjax init/step.
 
 from __future__ import annotations
 
-from ..core.terms import (c, evaluate, fn_name, kw, make_inliner, n, pretty, subterms)
+from ..core.terms import (cmp_, not_, pc, phi_, c, evaluate, fn_name, kw, make_inliner, n, pretty, subterms)
 from .common import (LIB_FACTS, cond_parts, is_call, kernel_classes, method, short,
                      thunk_value)
 
